@@ -314,7 +314,7 @@ func hostileVersion(rng *lib.Rng) ([]byte, string) {
 	case 2:
 		return nil, "close-without-reply"
 	case 3:
-		return p2penv.FrameLen(1<<40, []byte("x")), "overlong"
+		return p2penv.FrameLen(0xffffffff, []byte("x")), "overlong"
 	default:
 		return p2penv.Frame(types.Encode(v)), fmt.Sprintf("addr-from=%q addr-recv=%q", v.AddrFrom, v.AddrRecv)
 	}
@@ -346,7 +346,7 @@ func hostileDownloadReply(rng *lib.Rng, h int64) ([]byte, string) {
 	case 8:
 		return p2penv.FrameLen(uint64(types.MaxBlockSize)+uint64(rng.Range(1, 1<<20)), []byte("abc")), "overlong"
 	case 9:
-		return p2penv.FrameLen(1<<62, nil), "length-2^62"
+		return p2penv.FrameLen(lib.Pick(rng, []uint64{0x7fffffff, 0x80000000, 0xffffffff}), nil), "length-2^31..32"
 	case 10:
 		return nil, "close-without-reply"
 	case 11:
@@ -404,7 +404,7 @@ func hostileFrame(rng *lib.Rng, proto string, channel int32) ([]byte, string) {
 	case 4:
 		return p2penv.FrameLen(uint64(types.MaxBlockSize)+uint64(rng.Range(1, 1<<20)), rng.Bytes(8)), "overlong-prefix"
 	case 5:
-		return p2penv.FrameLen(uint64(1)<<uint(rng.Range(32, 63)), nil), "length-2^32..63"
+		return p2penv.FrameLen(lib.Pick(rng, []uint64{0x7fffffff, 0x80000000, 0xffffffff, uint64(types.MaxBlockSize), uint64(types.MaxBlockSize) - 1}), rng.Bytes(rng.Intn(40))), "length-max"
 	case 6:
 		body := types.Encode(valid)
 		return p2penv.FrameLen(uint64(len(body)+rng.Range(1, 1000)), body), "truncated"
